@@ -293,7 +293,46 @@ def run_case(ctx, nix, np, path, rng, recipe, rep):
                     sh = list(model.shape)
                     sh[ax] = rng.randint(0, 3)
                     v = c.values(dt, tuple(sh))
-                    da.append(v, axis=ax)
+                    r = rng.random()
+                    if r < 0.15:
+                        # the same axis counted from the end: NumPy's meaning, or a refusal that changes nothing
+                        try:
+                            da.append(v, axis=ax - model.ndim)
+                            ctx.count("append_negative_axis:accepted")
+                        except Exception:
+                            ctx.count("append_negative_axis:refused")
+                            done[-1] = "append_negative_axis_refused"
+                            verify("append_negative_axis_refused")
+                            continue
+                        done[-1] = "append_negative_axis"
+                        want = np.concatenate([model, v], axis=ax)
+                        wmask = np.concatenate([mask, np.ones(v.shape, dtype=bool)], axis=ax)
+                        got = np.asarray(da[...])
+                        why = c.same(got, want, wmask, dt)
+                        if why:
+                            ctx.violation("append_negative_axis:accepted_but_not_appended:%s:%s" % (why, dcl),
+                                          dict(rep, step=si, axis=ax - model.ndim, before=model, appended=v, got=got, done=done), rep)
+                            return done
+                    elif r < 0.25 and v.size:
+                        # an axis the array does not have: nothing can be appended there, so the stored data must stay what it was
+                        bad_ax = rng.choice([model.ndim, model.ndim + 1, -model.ndim - 1])
+                        vv = c.values(dt, model.shape) if rng.random() < 0.5 and model.size else v
+                        done[-1] = "append_axis_out_of_range"
+                        try:
+                            da.append(vv, axis=bad_ax)
+                            ctx.count("append_axis_out_of_range:accepted")
+                            got = np.asarray(da[...])
+                            why = c.same(got, model, mask, dt)
+                            if why:
+                                ctx.violation("append_axis_out_of_range:accepted_and_stored_data_changed:%s:%s" % (why, dcl),
+                                              dict(rep, step=si, axis=bad_ax, rank=model.ndim, before=model, appended=vv, got=got, done=done), rep)
+                                return done
+                        except Exception:
+                            ctx.count("append_axis_out_of_range:refused")
+                        verify("append_axis_out_of_range")
+                        continue
+                    else:
+                        da.append(v, axis=ax)
                     model = np.concatenate([model, v], axis=ax)
                     mask = np.concatenate([mask, np.ones(v.shape, dtype=bool)], axis=ax)
                 elif op == "refused_append":
